@@ -84,7 +84,7 @@ theorem evScan_eq (e : Enables) (lyc : Nat) (n : Nat) : ∀ (k : Nat) (vb st : B
     have h4 : 4 * k + 4 = 4 * (k + 1) := by omega
     simp only [evScan, anyTick]
     rw [h4, ih (k + 1)]
-    simp only [vblankEv, statEv, h4, Bool.or_assoc]
+    simp only [vblankEv, statEv, Bool.or_assoc]
     congr 3; omega
 
 /-! ### register writes leave the position alone -/
